@@ -8,7 +8,7 @@ INFO = {
                   'theory::analyze_and_backjump', 'theory::record', 'sat_core::assume/pop/propagate/check/analyze/record'],
     'assumptions': COMMON_ASSUMPTIONS + ['constraint sets and histories are concrete per query (curated + seeded sample in quick, larger systematic families in thorough); the time-point assignment x in [-8,8]^T quantified over is symbolic',
                                          'rdl: constraint constants are integers, strictness enters through negated constraints; the symbolic x ranges over integers (a grid of the reals)'],
-    'outside': 'more than 3 time points + origin per scenario (matrix growth is exercised by constructing the theories with capacity 4 -> resize), distances outside [-3,3], value listeners',
+    'outside': 'more than 5 time points + origin per scenario (matrix growth from capacity 4 is exercised by the 4- and 5-point chains), distances outside [-3,3], value listeners',
 }
 
 
@@ -40,6 +40,11 @@ CURATED = [
     (3, [(0, 1, 2), (1, 2, -3), (2, 0, 0), (2, 3, 1)], [(A, 0, 1), (A, 1, 1), (A, 2, 1), (A, 3, 1)]),
     # propagation of an undecided literal with explanation, then use it
     (3, [(1, 2, 1), (2, 3, 1), (1, 3, 2), (1, 3, 1), (3, 1, -3)], [(A, 0, 1), (A, 1, 1), (A, 3, 1), (POP, 0, 0), (POP, 0, 0)]),
+    # a four-edge chain t1 -> t2 -> t3 -> t4 -> t5 whose inner edge is asserted last, above root level; the undecided constraint on (t1,t5) is
+    # decided by it and its explanation has to name all four edges (also: the matrix grows from capacity 4)
+    (5, [(1, 2, 1), (3, 4, 1), (4, 5, 1), (2, 3, 1), (1, 5, 10), (5, 1, -5)], [(A, 0, 1), (A, 1, 1), (A, 2, 1), (A, 3, 1), (POP, 0, 0), (POP, 0, 0)]),
+    (5, [(1, 2, 1), (3, 4, 1), (4, 5, 1), (2, 3, 1), (1, 5, 4), (5, 1, -5)], [(ROOT, 0, 1), (ROOT, 1, 1), (A, 2, 1), (A, 3, 1), (POP, 0, 0), (A, 5, 1)]),
+    (4, [(1, 2, 2), (3, 4, 2), (2, 3, -1), (1, 4, 3), (4, 1, -4)], [(A, 0, 1), (A, 1, 1), (A, 2, 1), (POP, 0, 0), (A, 4, 1)]),
     # root level assertion + redundant / inconsistent new constraints afterwards are covered by the TRUE/FALSE checks at creation
     (2, [(1, 2, 2), (2, 1, -3)], [(ROOT, 0, 1), (ROOT, 1, 1)]),
 ]
@@ -62,6 +67,14 @@ def boundary_family():
         out.append((3, cons, [(ROOT, 2, 1), cl(0, 0, 1, 1), (A, 0, 1), (POP, 0, 0), (A, 3, 1)]))
         out.append((3, cons, [cl(0, 0, 1, 1), cl(1, 0, 2, 1), (A, 0, 1), (POP, 0, 0), (A, 1, 0), (POP, 0, 0)]))
         out.append((2, cons[:2], [cl(0, 1, 1, 1), (A, 0, 0), (POP, 0, 0), (A, 1, 1)]))
+    # predecessor bookkeeping across levels: a two-edge path t1 -> t2 -> t3 (predecessor of (t1,t3) is t2) is overridden one level up by
+    # a direct edge (predecessor t1), the direct edge is retracted, and then a conflict / propagation must be explained through the path again
+    for direct in (0, 1):
+        for viol in (-3, -2):
+            cons = [(1, 2, 1), (2, 3, 1), (1, 3, direct), (3, 1, viol), (1, 3, 1)]
+            out.append((3, cons, [(ROOT, 0, 1), (A, 1, 1), (A, 2, 1), (POP, 0, 0), (A, 3, 1)]))
+            out.append((3, cons, [(A, 0, 1), (A, 1, 1), (A, 2, 1), (POP, 0, 0), (A, 3, 1), (POP, 0, 0)]))
+            out.append((3, cons, [(A, 1, 1), (A, 0, 1), (A, 2, 1), (POP, 0, 0), (CHK, 3, 1), (A, 4, 0)]))
     # the same boundary reached through a two-edge path t1 -> t2 -> t3
     for e in (-1, 0, 1):
         cons = [(1, 2, 1), (2, 3, 1), (3, 1, -2 + e), (1, 3, 2 + e)]
@@ -100,7 +113,7 @@ def jobs(tier):
     rng = random.Random(4321 + seed)
     scs = list(CURATED) + boundary_family()
     if tier == 'quick':
-        scs += sample(rng, 30, 3, 5, 5) + sample(rng, 10, 2, 4, 6)
+        scs += sample(rng, 20, 3, 5, 5) + sample(rng, 6, 2, 4, 6)
         k = 5
     else:
         scs += sample(rng, 400, 3, 6, 6) + sample(rng, 200, 2, 5, 7)
